@@ -2,9 +2,11 @@
 use crate::infra::PropDef;
 
 pub mod c04;
+pub mod c13;
+pub mod c14;
 
 pub fn all() -> &'static [PropDef] {
-    static ALL: &[PropDef] = &[c04::DEF];
+    static ALL: &[PropDef] = &[c04::DEF, c13::DEF, c14::DEF];
     ALL
 }
 
